@@ -37,7 +37,7 @@ def logq(q):
 
 def cases(tier, rnd):
     out = []
-    nrand = 90 if tier == "quick" else 500
+    nrand = 240 if tier == "quick" else 1200
     for i in range(nrand):
         m = rnd.choice([0, 0, 1, 2, 3, 4, 5])  # data points already placed
         n = m + 1 + rnd.randint(0, 2)
